@@ -62,7 +62,23 @@ class ModelDB:
         return 0
 
     # ------------------------------------------------------------------ updates
-    def add_resource(self, resource):
+    def add_like_real(self, resource, real_specs):
+        """Apply add_resource in whichever of the two admissible readings reproduces the installed set the real call
+        produced: an extension whose base comes earlier *in the same resource* may be skipped (the base was not
+        installed when the call started - what the pinned tree does) or added (the base is installed by then)."""
+        import copy
+        for lenient in (False, True):
+            trial = copy.copy(self)
+            trial.lex = dict(self.lex)
+            trial.ilis = {k_: list(v) for k_, v in self.ilis.items()}
+            trial.ghosts = list(self.ghosts)
+            trial.add_resource(resource, lenient=lenient)
+            if set(trial.lex) == set(real_specs) or lenient:
+                if set(trial.lex) == set(real_specs):
+                    return self.add_resource(resource, lenient=lenient)
+        return self.add_resource(resource)
+
+    def add_resource(self, resource, lenient=False):
         """Returns [(spec, outcome)] with outcome in added / skip-installed / skip-nobase."""
         before = set(self.lex)
         plan = []
@@ -74,6 +90,8 @@ class ModelDB:
                 plan.append((sp, 'skip-nobase'))
             else:
                 plan.append((sp, 'added'))
+            if lenient and plan[-1][1] == 'added':
+                before.add(sp)
         for lx, (sp, outcome) in zip(resource['lexicons'], plan):
             if outcome == 'added':
                 self.seq += 1
